@@ -151,6 +151,11 @@ def _param_tables(chk: Check, cf: CodecFacts) -> None:
 
 def _tree_dispatch(chk: Check, cf: CodecFacts) -> None:
     ser = cf.ser
+    chk.ob("R07.3", "Serialization.__init__:own-codec-table", getattr(cf, "table_shared", None) is None,
+           ser.loc(), "every Serialization instance must own its codec table: __init__ binds self.codecs "
+           "to the module-level object %s itself, so registering a codec on one instance changes the "
+           "format every other instance (and AuxData.serializer) reads and writes"
+           % getattr(cf, "table_shared", None), 1)
     for nm, direction in (("_encode_tree", "encode"), ("_decode_tree", "decode")):
         f = ser.methods.get(nm)
         if f is None:
@@ -199,6 +204,18 @@ def _tree_dispatch(chk: Check, cf: CodecFacts) -> None:
                             bi.value == isinstance(t_.ops[0], ast.In):
                         known_br.add(b)
             g_ok = g_ok and bool(known_br) and cfg.path_avoiding(cfg.entry, cn, known_br) is None
+            # nothing but the codec of the head handles a value: every normal exit passes through
+            # the dispatch, and this function never touches the stream itself
+            bypass = cfg.path_avoiding(cfg.entry, cfg.exit, {cn})
+            stream = f.param_names()[1]
+            touches = [x for x in walk_no_nested(f.node) if isinstance(x, ast.Call)
+                       and isinstance(x.func, ast.Attribute) and attr_path(x.func.value) == (stream,)]
+            chk.ob("R07.3", "Serialization.%s:every-value-goes-through-its-codec" % nm,
+                   bypass is None and not touches, f.loc(),
+                   "Serialization.%s can finish without dispatching to the codec of the type head%s: "
+                   "such a value is not written/read in the format of its type (%s)"
+                   % (nm, " and uses the stream itself (%s)" % unparse(touches[0])[:40] if touches else "",
+                      " -> ".join(cfg.describe_path(bypass)[:6]) if bypass else ""), 2)
             chk.ob("R07.3", "Serialization.%s:unknown-head-guard" % nm, g_ok, f.loc(),
                    "Serialization.%s does not test '%s.name in self.codecs' before dispatching"
                    % (nm, tname), 2)
@@ -215,47 +232,93 @@ def _tree_dispatch(chk: Check, cf: CodecFacts) -> None:
                "Serialization.decode must pass its get_by_uuid to _decode_tree", 2)
 
 
+def _direct_lookups(chk: Check) -> None:
+    """a codec that calls get_by_uuid itself (instead of delegating to UUIDCodec.decode) must keep
+    the same policy: a UUID that names no attached node is not an error, it decodes to the plain
+    UUID"""
+    from ..summaries import Outside as _Out, Summary
+    repo = chk.repo
+    for c in repo.classes.values():
+        if not c.name.endswith("Codec") or c.name == "UUIDCodec":
+            continue
+        f = c.methods.get("decode")
+        if f is None:
+            continue
+        calls = [n for n in walk_no_nested(f.node) if isinstance(n, ast.Call)
+                 and isinstance(n.func, ast.Name) and n.func.id == "get_by_uuid"]
+        if not calls:
+            continue
+        chk.saw(f)
+        ok = True
+        why = ""
+        try:
+            sm = Summary(f.node)
+            for p_ in sm.paths:
+                for k, v in p_.facts.items():
+                    miss = (k[0] == "Is" and "None" in k[1:] and any(x.startswith("get_by_uuid(") for x in k[1:]) and v) or \
+                        (k[0] == "truthy" and k[1].startswith("get_by_uuid(") and not v)
+                    if miss and p_.kind == "raise":
+                        ok = False
+                        why = "raises %s when the lookup finds nothing" % (unparse(p_.value)[:60] if p_.value is not None else "")
+        except _Out as e:
+            ok = False
+            why = "outside the fragment: %s" % e
+        chk.ob("R07.4", "%s.decode:get_by_uuid-miss-is-plain" % c.name, ok, f.loc(),
+               "%s.decode resolves a UUID through get_by_uuid itself and %s: a UUID that names no "
+               "attached node must decode to the plain UUID, as UUIDCodec.decode does" % (c.name, why), 2)
+
+
 def _uuid_resolution(chk: Check, cf: CodecFacts) -> None:
+    _direct_lookups(chk)
     c = chk.repo.cls("UUIDCodec")
     f = c.methods.get("decode")
     if f is None:
         raise AnalysisError("anchor vanished: UUIDCodec.decode")
     chk.saw(f)
-    al = local_aliases(f.node)
-    rets = [r for r in walk_no_nested(f.node) if isinstance(r, ast.Return) and r.value is not None]
+    from ..summaries import Outside as _Out, Summary
     ok = False
     why = "return value is not a choice between the UUID and the lookup result"
-    # the uuid variable: bound from UUID(bytes=<read 16>)
-    uuid_vars = [k for k, v in al.items() if isinstance(v, ast.Call) and attr_path(v.func) == ("UUID",)]
     try:
-        if len(rets) == 1 and uuid_vars:
-            t = expr_term(rets[0].value, f, {}, {k: v for k, v in al.items() if k not in uuid_vars})
-            u = ("name", uuid_vars[0])
-            lookup_call = ("call", ("param", "get_by_uuid"), (u,))
-            lookup = ("ifexp", ("cmp", "Is", ("param", "get_by_uuid"), ("none",)), ("none",), lookup_call)
-            lookup2 = ("ifexp", ("cmp", "IsNot", ("param", "get_by_uuid"), ("none",)), lookup_call, ("none",))
-            forms = []
-            for lk in (lookup, lookup2):
-                forms.append(("ifexp", ("cmp", "Is", lk, ("none",)), u, lk))
-                forms.append(("ifexp", ("cmp", "IsNot", lk, ("none",)), lk, u))
-            ok = t in forms
+        sm = Summary(f.node)
+        vd = sm.value_dnf()
+        # facts every returning path shares (the validation guards) say nothing about the choice
+        allc = [c_ for cs in vd.values() for c_ in cs]
+        shared = {k: v for k, v in (allc[0].items() if allc else []) if all(c_.get(k) == v for c_ in allc)}
+        vd = {val: [{k: v for k, v in c_.items() if k not in shared} for c_ in cs] for val, cs in vd.items()}
+        lookups = [k for k in vd if k.startswith("get_by_uuid(")]
+        plains = [k for k in vd if k not in lookups]
+        if len(lookups) == 1 and len(plains) == 1 and "None" not in vd:
+            lk = lookups[0]
+            arg = lk[len("get_by_uuid("):-1]
+            # the looked-up key is the plain value (the UUID built from the 16 bytes read)
+            same_key = arg == plains[0]
+
+            def kind(k) -> str:
+                if k[0] == "Is" and set(k[1:]) == {"None", "get_by_uuid"}:
+                    return "fn"
+                if k[0] == "Is" and set(k[1:]) == {"None", lk}:
+                    return "found"
+                return "other"
+            good = same_key
+            # the node: exactly when there is a lookup function and it found something
+            for conj in vd[lk]:
+                ks = {kind(k): v for k, v in conj.items()}
+                if "other" in ks or ks.get("found") is not False or ks.get("fn", False) is not False:
+                    good = False
+            # the plain UUID: exactly when there is no function or nothing was found
+            for conj in vd[plains[0]]:
+                ks = {kind(k): v for k, v in conj.items()}
+                if "other" in ks or not (ks.get("fn") is True or ks.get("found") is True):
+                    good = False
+            ok = good and len(vd[lk]) == 1
             if not ok:
-                why = "returns %s" % unparse(rets[0].value)
-        elif len(rets) > 1 and uuid_vars:
-            # statement form: every return of the UUID is on a path where the lookup result
-            # (or the lookup function) was None; every other return is the lookup result
-            cfg = CFG(f.node)
-            ok = True
-            for r in rets:
-                if isinstance(r.value, ast.Name) and r.value.id == uuid_vars[0]:
-                    continue
-                if isinstance(r.value, ast.Name) and r.value.id in al and \
-                        "get_by_uuid" in unparse(al[r.value.id]):
-                    continue
-                ok = False
-                why = "returns %s" % unparse(r.value)
-    except OutsideFragment as e:
-        why = str(e)
+                why = "returns %s when %s and %s when %s" % (
+                    lk, [sorted(" ".join(k) + "=" + str(v) for k, v in c_.items()) for c_ in vd[lk]],
+                    plains[0], [sorted(" ".join(k) + "=" + str(v) for k, v in c_.items()) for c_ in vd[plains[0]]])
+        else:
+            why = "returns %s" % sorted(vd)
+    except _Out as e:
+        why = "outside the fragment: %s" % e
     chk.ob("R07.4", "UUIDCodec.decode:resolution", ok, f.loc(),
            "UUIDCodec.decode must return the node get_by_uuid finds for the 16 bytes read and the "
            "plain UUID otherwise (%s)" % why, 3)
